@@ -17,6 +17,7 @@ type vpReplayVec struct {
 	Harness string            `json:"harness"`
 	Values  map[string]uint64 `json:"values"`
 	Choices []uint64          `json:"choices"`
+	Tier    int               `json:"tier"` // 0 quick, 1 thorough
 }
 
 type vpAssumeFailed struct{}
@@ -102,6 +103,9 @@ func vpAssert(c bool, label string) {
 
 func vpReach(label string) { vpReached = append(vpReached, label) }
 func vpNote(s string)      { vpNotes = append(vpNotes, s) }
+
+// vpThorough reports whether the thorough-tier bounds apply.
+func vpThorough() bool { return vpRV.Tier > 0 }
 
 // vpSymbolic reports whether the harness runs under the symbolic engine.
 func vpSymbolic() bool { return false }
